@@ -3,6 +3,7 @@
 //   group <path>
 //   attr <path> <name> <type> <n> v...
 //   dataset <path> <type:f32|f64|i32|u32|i64|u64|str|other> rank d0 d1 .. fnv=<hash of raw bytes>
+//   chunk <path> rank c0 c1 ..          (storage layout: chunk dimensions; only for chunked datasets)
 //   data <path> v...                    (only with --values; floats as C99 hex floats)
 // Values are read in the file's native memory type; nothing is converted through decimal text.
 #include <hdf5.h>
@@ -144,6 +145,21 @@ static void walk(hid_t loc, const std::string& path)
             printf("dataset %s %s %d", p.c_str(), tn, rank);
             for (int k = 0; k < rank; k++) printf(" %llu", (unsigned long long)dims[k]);
             printf(" fnv=%016llx\n", (unsigned long long)h);
+            {
+                // storage layout: a flush that spans several chunks / ends on a chunk boundary is a case of its own
+                hid_t pl = H5Dget_create_plist(d);
+                if (pl >= 0) {
+                    if (rank > 0 && H5Pget_layout(pl) == H5D_CHUNKED) {
+                        std::vector<hsize_t> ch(rank, 0);
+                        if (H5Pget_chunk(pl, rank, ch.data()) == rank) {
+                            printf("chunk %s %d", p.c_str(), rank);
+                            for (int k = 0; k < rank; k++) printf(" %llu", (unsigned long long)ch[k]);
+                            printf("\n");
+                        }
+                    }
+                    H5Pclose(pl);
+                }
+            }
             dump_attrs(d, p);
             if (want_values && selected(p) && memt >= 0 && n > 0) {
                 printf("data %s", p.c_str());
